@@ -313,7 +313,14 @@ func (m *immutableMap) Interface() any {
 	t := reflect.MakeMapWithSize(reflect.MapOf(keyType, valueType), len(m.value))
 	for _, bucket := range m.value {
 		for _, pair := range bucket {
-			t.SetMapIndex(reflect.ValueOf(InterfaceOf(pair[0])), reflect.ValueOf(InterfaceOf(pair[1])))
+			key, value := reflect.Zero(keyType), reflect.Zero(valueType)
+			if k := InterfaceOf(pair[0]); k != nil {
+				key = reflect.ValueOf(k)
+			}
+			if v := InterfaceOf(pair[1]); v != nil {
+				value = reflect.ValueOf(v)
+			}
+			t.SetMapIndex(key, value)
 		}
 	}
 	return t.Interface()
